@@ -90,6 +90,20 @@ func (vc *VC) runPass() {
 			st.heap[n] = TFalse
 		default:
 			st.heap[n] = vc.fresh(n, vc.universe[n])
+			if n == "ghost$chanClosed" {
+				// channels that do not exist yet are not closed
+				h := st.heap[n].S
+				vc.emit(fmt.Sprintf("(assert (forall ((r Int)) (! (=> (> r alloc$base) (not (select %s r))) :pattern ((select %s r)))))", h, h))
+			}
+			if vc.universe[n] == arrSort(SInt, SSlc) {
+				// slices stored in objects on entry were allocated before the call
+				h := st.heap[n].S
+				vc.emit(fmt.Sprintf("(assert (forall ((r Int)) (! (<= (sbase (select %s r)) alloc$base) :pattern ((select %s r)))))", h, h))
+			}
+			if heapRefLike[n] && vc.universe[n] == arrSort(SInt, SInt) {
+				h := st.heap[n].S
+				vc.emit(fmt.Sprintf("(assert (forall ((r Int)) (! (<= (select %s r) alloc$base) :pattern ((select %s r)))))", h, h))
+			}
 		}
 	}
 	// receiver and parameters
@@ -102,6 +116,9 @@ func (vc *VC) runPass() {
 		st.assume(vc.rangeFact(o.Type(), v))
 		if v.Sort == SInt && !isBasicInt(o.Type()) && !namedIs(o.Type(), "time", "Time") && !isErrorType(o.Type()) {
 			st.assume(app(SBool, "<=", v, Term{"alloc$base", SInt}))
+		}
+		if v.Sort == SSlc {
+			st.assume(app(SBool, "<=", sbase(v), Term{"alloc$base", SInt}))
 		}
 		vc.declareLocal(st, o, v)
 	}
